@@ -118,7 +118,9 @@ Definition setpub_of (c : cfg) (done : list opkt) : list Z :=
 Definition cbpub_of (c : cfg) (done : list opkt) : list Z :=
   if c_onpub c then map p_id (filter is_pub0 done) else [].
 
-Definition ids_ok (h : list opkt) : Prop := map p_id h = map Z.of_nat (seq 0 (length h)).
+(* identifiers are distinct and smaller than the number of packets queued so far *)
+Definition ids_ok (h : list opkt) : Prop :=
+  NoDup (map p_id h) /\ Forall (fun x => 0 <= p_id x < Z.of_nat (length h)) h.
 
 Lemma reset_fresh_pkt i b k r : reset (fresh_pkt i b k r) = fresh_pkt i b k r.
 Proof. reflexivity. Qed.
@@ -146,21 +148,40 @@ Proof.
   cbn [sent_part]. rewrite Hx. reflexivity.
 Qed.
 
-Lemma ids_ok_nth h a x b : ids_ok h -> h = a ++ x :: b -> p_id x = Z.of_nat (length a).
+Lemma NoDup_remove_inv_snoc {A} (l : list A) x : NoDup l -> ~ In x l -> NoDup (l ++ [x]).
 Proof.
-  unfold ids_ok; intros H ->.
-  apply (f_equal (fun l => nth (length a) l 0)) in H.
-  rewrite map_app in H. cbn [map] in H.
-  rewrite app_nth2 in H by (rewrite map_length; lia).
-  rewrite map_length, Nat.sub_diag in H. cbn [nth] in H. rewrite H.
-  rewrite (nth_indep _ 0 (Z.of_nat 0)) by (rewrite map_length, seq_length, app_length; cbn [length]; lia).
-  rewrite map_nth, seq_nth by (rewrite app_length; cbn [length]; lia). reflexivity.
+  induction l as [|y l IH]; cbn [app]; intros Hn Hx; [constructor; [intros []|constructor]|].
+  inversion Hn as [|? ? Hy Hl]; subst. constructor.
+  - intros Hin. apply in_app_or in Hin as [Hin|[Hin|[]]]; [contradiction|]. subst. apply Hx. left. reflexivity.
+  - apply IH; [assumption|]. intros Hin. apply Hx. right. assumption.
 Qed.
+
+Lemma ids_ok_fresh_id h : ids_ok h -> ~ In (Z.of_nat (length h)) (map p_id h).
+Proof.
+  intros [_ Hb] Hin. apply in_map_iff in Hin as (x & Hx & Hin).
+  rewrite Forall_forall in Hb. specialize (Hb x Hin). lia.
+Qed.
+
+Lemma ids_ok_bound_grow h n : (length h <= n)%nat ->
+  Forall (fun x => 0 <= p_id x < Z.of_nat (length h)) h -> Forall (fun x => 0 <= p_id x < Z.of_nat n) h.
+Proof. intros Hn. apply Forall_impl. intros x Hx. lia. Qed.
 
 Lemma ids_ok_snoc h i b k r : ids_ok h -> i = Z.of_nat (length h) -> ids_ok (h ++ [fresh_pkt i b k r]).
 Proof.
-  unfold ids_ok; intros H ->. rewrite app_length, map_app, H. cbn [length map p_id fresh_pkt].
-  rewrite Nat.add_1_r, seq_S, map_app. reflexivity.
+  intros H ->. pose proof (ids_ok_fresh_id h H) as Hf. destruct H as [Hn Hb]. split.
+  - rewrite map_app. cbn [map p_id fresh_pkt].
+    apply NoDup_remove_inv_snoc; assumption.
+  - rewrite app_length. cbn [length]. apply Forall_app. split.
+    + apply (ids_ok_bound_grow h); [lia|assumption].
+    + constructor; [cbn [p_id fresh_pkt]; lia|constructor].
+Qed.
+
+Lemma ids_ok_cons h i b k r : ids_ok h -> i = Z.of_nat (length h) -> ids_ok (fresh_pkt i b k r :: h).
+Proof.
+  intros H ->. pose proof (ids_ok_fresh_id h H) as Hf. destruct H as [Hn Hb]. split.
+  - cbn [map p_id fresh_pkt]. constructor; assumption.
+  - cbn [length]. constructor; [cbn [p_id fresh_pkt]; lia|].
+    apply (ids_ok_bound_grow h); [lia|assumption].
 Qed.
 
 Lemma setpub_of_snoc c done p :
@@ -196,10 +217,10 @@ Hypothesis tsend_spec : forall t rw lw d s r t' raw s',
 (* a publication report for packet i is only made at a point where the bytes counted as written are exactly
    the packets 0..i of the history, and the transport holds nothing back *)
 Definition pub_point (h : list opkt) (rw lw : list Z) (i : Z) : Prop :=
-  0 <= i
-  /\ (exists p, nth_error h (Z.to_nat i) = Some p /\ p_kind p = KPub0 /\ p_id p = i)
-  /\ lw = concat (map p_bytes (firstn (S (Z.to_nat i)) h))
-  /\ exists t, TR t rw lw None.
+  exists pre p post,
+    h = pre ++ p :: post /\ p_kind p = KPub0 /\ p_id p = i
+    /\ lw = concat (map p_bytes (pre ++ [p]))
+    /\ exists t, TR t rw lw None.
 
 Fixpoint pubs_ok (h : list opkt) (rw lw : list Z) (tr : list event) : Prop :=
   match tr with
@@ -227,12 +248,8 @@ Qed.
 
 Lemma pub_point_ext h h' rw lw i : pub_point h rw lw i -> pub_point (h ++ h') rw lw i.
 Proof.
-  intros (H0 & (p & Hn & Hk & Hi) & Hl & Ht). split; [assumption|].
-  assert (Hlt : (Z.to_nat i < length h)%nat) by (apply nth_error_Some; congruence).
-  split; [exists p; split; [rewrite nth_error_app1 by assumption; assumption|tauto]|].
-  split; [|assumption].
-  rewrite firstn_app. replace (S (Z.to_nat i) - length h)%nat with O by lia.
-  cbn [firstn]. rewrite app_nil_r. assumption.
+  intros (pre & p & post & Hh & Hk & Hi & Hl & Ht). exists pre, p, (post ++ h').
+  rewrite Hh, <- app_assoc. repeat split; assumption.
 Qed.
 
 Lemma pubs_ok_ext h h' tr : forall rw lw, pubs_ok h rw lw tr -> pubs_ok (h ++ h') rw lw tr.
@@ -242,8 +259,8 @@ Proof.
     (destruct H as [H1 H2]; split; [apply pub_point_ext; assumption|apply IH; assumption]).
 Qed.
 
-(* the invariant, relative to the list [done] of completely written packets *)
-Record IB (c : cfg) (q : list opkt) (t : T) (tr : list event) (h done : list opkt) : Prop := mkIB {
+(* the invariant, relative to the list [done] of completely written packets; cq = _connect_queued *)
+Record IB (c : cfg) (cq : bool) (q : list opkt) (t : T) (tr : list event) (h done : list opkt) : Prop := mkIB {
   ib_hist : h = done ++ map reset q;
   ib_acc : acc_of tr = concat (map p_bytes done) ++ sent_part q;
   ib_q : q_ok q;
@@ -251,22 +268,27 @@ Record IB (c : cfg) (q : list opkt) (t : T) (tr : list event) (h done : list opk
   ib_setpub : setpub_ids tr = setpub_of c done;
   ib_cbpub : cbpub_ids tr = cbpub_of c done;
   ib_tr : TR t (wire_of tr) (acc_of tr) (head_off q);
-  ib_pubs : pubs_ok h [] [] tr
+  ib_pubs : pubs_ok h [] [] tr;
+  (* before CONNECT is queued nothing has been offered to the transport *)
+  ib_pre : cq = false -> done = [] /\ nopub tr /\ wire_of tr = [] /\ Forall fresh q /\ forall od, TR t [] [] od
 }.
 
-Definition Inv (c : cfg) (q : list opkt) (t : T) (tr : list event) (h : list opkt) : Prop :=
-  exists done, IB c q t tr h done.
+Definition Inv (c : cfg) (cq : bool) (q : list opkt) (t : T) (tr : list event) (h : list opkt) : Prop :=
+  exists done, IB c cq q t tr h done.
 
 (* events without Acc / publication reports and without wire bytes change nothing *)
-Lemma IB_nopub c q t tr h done ev :
-  IB c q t tr h done -> nopub ev -> wire_of ev = [] -> IB c q t (tr ++ ev) h done.
+Lemma IB_nopub c cq q t tr h done ev :
+  IB c cq q t tr h done -> nopub ev -> wire_of ev = [] -> IB c cq q t (tr ++ ev) h done.
 Proof.
-  intros [H1 H2 H3 H4 H5 H6 H7 H8] Hn Hw. constructor; try assumption.
+  intros [H1 H2 H3 H4 H5 H6 H7 H8 H9] Hn Hw. constructor; try assumption.
   - rewrite acc_of_app, (nopub_acc ev), app_nil_r by assumption. assumption.
   - rewrite setpub_ids_app, (nopub_setpub ev), app_nil_r by assumption. assumption.
   - rewrite cbpub_ids_app, (nopub_cbpub ev), app_nil_r by assumption. assumption.
   - rewrite wire_of_app, acc_of_app, Hw, (nopub_acc ev), !app_nil_r by assumption. assumption.
   - apply pubs_ok_app. split; [assumption|]. apply nopub_pubs_ok; assumption.
+  - intros Hc. destruct (H9 Hc) as (P1 & P2 & P3 & P4 & P5). repeat split; try assumption.
+    + apply nopub_app; assumption.
+    + rewrite wire_of_app, P3, Hw. reflexivity.
 Qed.
 
 (* ------------------------------------------------------------------ the small state functions *)
@@ -316,6 +338,28 @@ Proof.
   - intros H; inv H. split; [reflexivity|]. split; [assumption|]. split; [constructor|]. left. repeat split.
 Qed.
 
+Lemma call_reg_write_connq st st' ev : call_reg_write T st = (st', ev) -> connq st' = connq st.
+Proof. unfold call_reg_write. destruct (negb (sock st) || regw st); intros H; inv H; reflexivity. Qed.
+
+Lemma call_unreg_write_connq b st st' ev : call_unreg_write T b st = (st', ev) -> connq st' = connq st.
+Proof. unfold call_unreg_write. destruct (negb b || negb (regw st)); intros H; inv H; reflexivity. Qed.
+
+Lemma sock_close_connq st st' ev : sock_close T st = (st', ev) -> connq st' = connq st.
+Proof.
+  unfold sock_close. destruct (negb (sock st)); [intros H; inv H; reflexivity|].
+  destruct (call_unreg_write T true _) as [st1 ev1] eqn:Hu. intros H; inv H.
+  apply call_unreg_write_connq in Hu. exact Hu.
+Qed.
+
+Lemma sock_send_connq st d s r st1 ev s1 : sock_send T tsend st d s = (r, st1, ev, s1) -> connq st1 = connq st.
+Proof.
+  unfold sock_send. destruct (negb (sock st)); [intros H; inv H; reflexivity|].
+  destruct (tsend (tst st) d s) as [[[r0 t'] raw] s'].
+  destruct r0; try (intros H; inv H; reflexivity).
+  destruct (call_reg_write T (set_tst T st t')) as [st2 ev2] eqn:Hc. intros H; inv H.
+  apply call_reg_write_connq in Hc. exact Hc.
+Qed.
+
 Lemma sock_send_TR st d s r st1 ev s1 rw lw :
   sock_send T tsend st d s = (r, st1, ev, s1) -> TR (tst st) rw lw (Some d) ->
   match r with
@@ -343,11 +387,11 @@ Proof.
 Qed.
 
 Lemma IB_requeue c p q t t' tr h done ev :
-  IB c (p :: q) t tr h done -> nopub ev ->
+  IB c true (p :: q) t tr h done -> nopub ev ->
   TR t' (wire_of tr ++ wire_of ev) (acc_of tr) (Some (offered p)) ->
-  IB c (p :: q) t' (tr ++ ev) h done.
+  IB c true (p :: q) t' (tr ++ ev) h done.
 Proof.
-  intros [H1 H2 H3 H4 H5 H6 H7 H8] Hn HT. constructor; try assumption.
+  intros [H1 H2 H3 H4 H5 H6 H7 H8 _] Hn HT. constructor; try assumption; try discriminate.
   - rewrite acc_of_app, (nopub_acc ev), app_nil_r by assumption. assumption.
   - rewrite setpub_ids_app, (nopub_setpub ev), app_nil_r by assumption. assumption.
   - rewrite cbpub_ids_app, (nopub_cbpub ev), app_nil_r by assumption. assumption.
@@ -356,14 +400,14 @@ Proof.
 Qed.
 
 Lemma IB_partial c p q t t' tr h done ev1 n :
-  IB c (p :: q) t tr h done -> nopub ev1 -> 0 < n -> p_pos p + n < zlen (p_bytes p) ->
+  IB c true (p :: q) t tr h done -> nopub ev1 -> 0 < n -> p_pos p + n < zlen (p_bytes p) ->
   (forall od, TR t' (wire_of tr ++ wire_of ev1) (acc_of tr ++ ztake n (offered p)) od) ->
-  IB c (advance p n :: q) t' (tr ++ ev1 ++ [Acc (ztake n (offered p))]) h done.
+  IB c true (advance p n :: q) t' (tr ++ ev1 ++ [Acc (ztake n (offered p))]) h done.
 Proof.
-  intros [H1 H2 H3 H4 H5 H6 H7 H8] Hn Hpos Hlt HT.
+  intros [H1 H2 H3 H4 H5 H6 H7 H8 _] Hn Hpos Hlt HT.
   destruct (acc_tail_facts ev1 (ztake n (offered p)) Hn) as (Ew & Ea & Es & Ec & Ep).
   destruct H3 as [[Hp1 Hp2] Hq].
-  constructor; try assumption.
+  constructor; try assumption; try discriminate.
   - rewrite acc_of_app, Ea, H2. cbn [sent_part advance p_pos p_bytes]. unfold offered.
     rewrite <- app_assoc. f_equal. symmetry. apply ztake_add; lia.
   - split; [|assumption]. unfold head_ok; cbn [advance p_pos p_bytes p_top]. lia.
@@ -387,12 +431,12 @@ Proof.
 Qed.
 
 Lemma IB_complete c p q t t' tr h done ev1 n evp raised :
-  IB c (p :: q) t tr h done -> nopub ev1 -> 0 < n -> p_pos p + n = zlen (p_bytes p) ->
+  IB c true (p :: q) t tr h done -> nopub ev1 -> 0 < n -> p_pos p + n = zlen (p_bytes p) ->
   (forall od, TR t' (wire_of tr ++ wire_of ev1) (acc_of tr ++ ztake n (offered p)) od) ->
   pub0_events c (advance p n) = (evp, raised) ->
-  IB c q t' (tr ++ (ev1 ++ [Acc (ztake n (offered p))]) ++ evp) h (done ++ [reset p]).
+  IB c true q t' (tr ++ (ev1 ++ [Acc (ztake n (offered p))]) ++ evp) h (done ++ [reset p]).
 Proof.
-  intros [H1 H2 H3 H4 H5 H6 H7 H8] Hn Hpos Heq HT Hev.
+  intros [H1 H2 H3 H4 H5 H6 H7 H8 _] Hn Hpos Heq HT Hev.
   destruct (acc_tail_facts ev1 (ztake n (offered p)) Hn) as (Ew & Ea & Es & Ec & Ep).
   apply pub0_events_facts in Hev as (Pw & Pa & Ps & Pc & Pp).
   change (is_pub0 (advance p n)) with (is_pub0 p) in *.
@@ -414,17 +458,10 @@ Proof.
   - rewrite !wire_of_app, !acc_of_app, Ew, Ea, Pw, Pa, !app_nil_r. apply HT.
   - apply pubs_ok_app. split; [assumption|]. apply pubs_ok_app. split; [apply Ep|].
     apply Pp. intros Hk. rewrite Ew, Ea, !app_nil_l.
-    assert (Hid : p_id p = Z.of_nat (length done)).
-    { change (p_id p) with (p_id (reset p)). eapply ids_ok_nth; [exact H4|]. rewrite H1. reflexivity. }
-    unfold pub_point. rewrite Hid, Nat2Z.id. split; [lia|]. split.
-    + exists (reset p). rewrite H1. cbn [map]. rewrite nth_error_app2, Nat.sub_diag by lia.
-      split; [reflexivity|]. split; [|exact Hid].
-      unfold is_pub0 in Hk. cbn [reset fresh_pkt p_kind]. destruct (p_kind p); try discriminate; reflexivity.
-    + split.
-      * rewrite Hacc. f_equal. f_equal. rewrite H1. cbn [map].
-        rewrite firstn_app, firstn_all2 by lia.
-        replace (S (length done) - length done)%nat with 1%nat by lia. reflexivity.
-      * exists t'. apply HT.
+    exists done, (reset p), (map reset q). split; [rewrite H1; reflexivity|]. split.
+    { unfold is_pub0 in Hk. cbn [reset fresh_pkt p_kind]. destruct (p_kind p); try discriminate; reflexivity. }
+    split; [reflexivity|]. split; [exact Hacc|]. exists t'. apply HT.
+  - discriminate.
 Qed.
 
 Lemma zlen_lt_length (a b : list Z) : zlen a < zlen b -> (length a < length b)%nat.
@@ -433,9 +470,9 @@ Proof. unfold zlen; lia. Qed.
 (* ------------------------------------------------------------------ _packet_write: invariant and termination *)
 Lemma pw_inv c : forall fuel st s st' ev rc s' tr h,
   packet_write_fuel T tsend fuel c st s = (st', ev, rc, s') ->
-  Inv c (outq st) (tst st) tr h ->
+  Inv c true (outq st) (tst st) tr h ->
   (q_measure (outq st) < fuel)%nat ->
-  Inv c (outq st') (tst st') (tr ++ ev) h /\ rc <> RcOutOfFuel.
+  Inv c true (outq st') (tst st') (tr ++ ev) h /\ rc <> RcOutOfFuel.
 Proof.
   induction fuel as [|fuel IH]; intros st s st' ev rc s' tr h Hpw HI Hm; [lia|].
   cbn [packet_write_fuel] in Hpw.
@@ -444,8 +481,8 @@ Proof.
   destruct (sock_send T tsend (set_outq T st q) (offered p) s) as [[[r st1] ev1] s1] eqn:Hss.
   pose proof (sock_send_facts _ _ _ _ _ _ _ Hss) as (Ho & _ & Hnp & _). cbn [set_outq outq] in Ho.
   destruct HI as [done HI]. subst q.
-  pose proof (sock_send_TR _ _ _ _ _ _ _ _ _ Hss (ib_tr _ _ _ _ _ _ HI)) as HT.
-  pose proof (ib_q _ _ _ _ _ _ HI) as [[Hp1 Hp2] Hfr].
+  pose proof (sock_send_TR _ _ _ _ _ _ _ _ _ Hss (ib_tr _ _ _ _ _ _ _ HI)) as HT.
+  pose proof (ib_q _ _ _ _ _ _ _ HI) as [[Hp1 Hp2] Hfr].
   pose proof (offered_len p (conj Hp1 Hp2)) as Hol.
   cbn [q_measure] in Hm. unfold pkt_measure in Hm.
   destruct r as [n| | |];
@@ -464,7 +501,7 @@ Proof.
         -- destruct (sock_close T st1) as [st2 evc] eqn:Hsc. inv Hpw.
            apply sock_close_facts in Hsc as (C1 & C2 & _ & C4 & C5).
            rewrite C1, C2. split; [|discriminate]. exists (done ++ [reset p]).
-           match goal with |- IB _ _ _ ?t _ _ =>
+           match goal with |- IB _ _ _ _ ?t _ _ =>
              replace t with ((tr ++ (ev1 ++ [Acc (ztake n (offered p))]) ++ evp) ++ ([CbDisconnect] ++ evc))
                by (repeat rewrite <- app_assoc; reflexivity) end.
            apply IB_nopub; [exact HI'| |].
@@ -473,7 +510,7 @@ Proof.
         -- destruct (packet_write_fuel T tsend fuel c st1 s1) as [[[st3 ev3] r3] s3] eqn:Hrec. inv Hpw.
            apply (IH _ _ _ _ _ _ (tr ++ (ev1 ++ [Acc (ztake n (offered p))]) ++ evp) h) in Hrec.
            ++ destruct Hrec as [Hr1 Hr2]. split; [|assumption].
-              match goal with |- Inv _ _ _ ?t _ =>
+              match goal with |- Inv _ _ _ _ ?t _ =>
                 replace t with ((tr ++ (ev1 ++ [Acc (ztake n (offered p))]) ++ evp) ++ ev3)
                   by (repeat rewrite <- app_assoc; reflexivity) end.
               assumption.
@@ -486,7 +523,7 @@ Proof.
         as [[[st3 ev3] r3] s3] eqn:Hrec. inv Hpw.
       apply (IH _ _ _ _ _ _ (tr ++ ev1 ++ [Acc (ztake n (offered p))]) h) in Hrec.
       * destruct Hrec as [Hr1 Hr2]. split; [|assumption].
-        match goal with |- Inv _ _ _ ?t _ =>
+        match goal with |- Inv _ _ _ _ ?t _ =>
           replace t with ((tr ++ ev1 ++ [Acc (ztake n (offered p))]) ++ ev3)
             by (repeat rewrite <- app_assoc; reflexivity) end.
         assumption.
@@ -502,19 +539,44 @@ Proof.
 Qed.
 
 (* ------------------------------------------------------------------ loop_write, _packet_queue, runs *)
-Lemma Inv_nopub c q t tr h ev : Inv c q t tr h -> nopub ev -> wire_of ev = [] -> Inv c q t (tr ++ ev) h.
+Lemma pw_connq c : forall fuel st s st' ev rc s',
+  packet_write_fuel T tsend fuel c st s = (st', ev, rc, s') -> connq st' = connq st.
+Proof.
+  induction fuel as [|fuel IH]; intros st s st' ev rc s' H; cbn [packet_write_fuel] in H; [inv H; reflexivity|].
+  destruct (outq st) as [|p q]; [inv H; reflexivity|].
+  destruct (sock_send T tsend (set_outq T st q) (offered p) s) as [[[r st1] ev1] s1] eqn:Hss.
+  apply sock_send_connq in Hss. cbn [set_outq connq] in Hss.
+  destruct r as [n| | |]; try (inv H; cbn [set_outq connq]; assumption).
+  destruct (0 <? n); [|inv H; cbn [set_outq connq]; assumption].
+  destruct (p_top (advance p n) =? 0).
+  - destruct (pub0_events c (advance p n)) as [evp raised]. destruct raised; [inv H; assumption|].
+    destruct (is_disc (advance p n)).
+    + destruct (sock_close T st1) as [st2 evc] eqn:Hsc. inv H. apply sock_close_connq in Hsc. congruence.
+    + destruct (packet_write_fuel T tsend fuel c st1 s1) as [[[st3 ev3] r3] s3] eqn:Hrec. inv H.
+      apply IH in Hrec. congruence.
+  - destruct (packet_write_fuel T tsend fuel c (set_outq T st1 (advance p n :: outq st1)) s1)
+      as [[[st3 ev3] r3] s3] eqn:Hrec. inv H. apply IH in Hrec. cbn [set_outq connq] in Hrec. congruence.
+Qed.
+
+Lemma Inv_nopub c cq q t tr h ev : Inv c cq q t tr h -> nopub ev -> wire_of ev = [] -> Inv c cq q t (tr ++ ev) h.
 Proof. intros [done H] Hn Hw. exists done. apply IB_nopub; assumption. Qed.
 
 Definition asks (st : wstate T) : Prop := sock st = true -> outq st <> [] -> regw st = true.
 
 Lemma loop_write_inv c st s st' ev rc s' tr h :
-  loop_write T tsend c st s = (st', ev, rc, s') -> Inv c (outq st) (tst st) tr h ->
-  Inv c (outq st') (tst st') (tr ++ ev) h /\ rc <> RcOutOfFuel /\ (sock st = true -> asks st').
+  loop_write T tsend c st s = (st', ev, rc, s') -> Inv c (connq st) (outq st) (tst st) tr h ->
+  connq st = true \/ asks st ->
+  Inv c (connq st') (outq st') (tst st') (tr ++ ev) h /\ rc <> RcOutOfFuel /\ connq st' = connq st
+  /\ (sock st = true -> asks st').
 Proof.
-  unfold loop_write. destruct (sock st) eqn:Hs; cbn [negb]; intros H HI.
-  2:{ inv H. rewrite app_nil_r. split; [assumption|]. split; [discriminate|]. discriminate. }
+  unfold loop_write. destruct (sock st) eqn:Hs; cbn [negb]; intros H HI Hca.
+  2:{ inv H. rewrite app_nil_r. split; [assumption|]. split; [discriminate|]. split; [reflexivity|discriminate]. }
+  destruct (connq st) eqn:Hcq; cbn [negb] in H.
+  2:{ inv H. rewrite app_nil_r, Hcq. split; [assumption|]. split; [discriminate|]. split; [reflexivity|].
+      intros _. destruct Hca as [Hca|Hca]; [discriminate|assumption]. }
   destruct (packet_write T tsend c st s) as [[[st1 ev1] r] s1] eqn:Hpw.
-  unfold packet_write in Hpw. eapply pw_inv in Hpw as [HI1 Hr]; [|eassumption|lia].
+  unfold packet_write in Hpw. pose proof (pw_connq _ _ _ _ _ _ _ _ Hpw) as Hq1.
+  eapply pw_inv in Hpw as [HI1 Hr]; [|eassumption|lia].
   assert (Hmid : forall st2 ev2 r2,
      (match r with
       | RcAgain => (st1, [], RcSuccess)
@@ -523,11 +585,13 @@ Proof.
       | RcOutOfFuel => (st1, [], RcOutOfFuel)
       | _ => (st1, [], RcSuccess)
       end) = (st2, ev2, r2) ->
-     outq st2 = outq st1 /\ tst st2 = tst st1 /\ nopub ev2 /\ wire_of ev2 = [] /\ r2 <> RcOutOfFuel).
+     outq st2 = outq st1 /\ tst st2 = tst st1 /\ nopub ev2 /\ wire_of ev2 = [] /\ r2 <> RcOutOfFuel
+     /\ connq st2 = connq st1).
   { intros st2 ev2 r2 Hm.
     destruct r; try congruence;
       try (inv Hm; repeat split; try constructor; discriminate).
     unfold loop_rc_handle in Hm. destruct (sock_close T st1) as [sta eva] eqn:Hsc. inv Hm.
+    pose proof (sock_close_connq _ _ _ Hsc) as C6.
     apply sock_close_facts in Hsc as (C1 & C2 & _ & C4 & C5).
     repeat split; try assumption; try discriminate.
     - apply nopub_app; [assumption|repeat constructor].
@@ -539,29 +603,34 @@ Proof.
       | RcOutOfFuel => (st1, [], RcOutOfFuel)
       | _ => (st1, [], RcSuccess)
       end) as [[st2 ev2] r2] eqn:Hm.
-  destruct (Hmid _ _ _ eq_refl) as (M1 & M2 & M3 & M4 & M5).
+  destruct (Hmid _ _ _ eq_refl) as (M1 & M2 & M3 & M4 & M5 & M6).
   assert (Hfin : forall st3 ev3,
      (if want_write st2 then call_reg_write T st2 else call_unreg_write T (sock st2) st2) = (st3, ev3) ->
-     outq st3 = outq st2 /\ tst st3 = tst st2 /\ nopub ev3 /\ wire_of ev3 = [] /\ asks st3).
+     outq st3 = outq st2 /\ tst st3 = tst st2 /\ nopub ev3 /\ wire_of ev3 = [] /\ asks st3 /\ connq st3 = connq st2).
   { intros st3 ev3 Hf. unfold want_write in Hf. destruct (outq st2) as [|x q2] eqn:Hq2.
-    - apply call_unreg_write_facts in Hf as (F1 & F2 & F3 & F4 & F5).
+    - pose proof (call_unreg_write_connq _ _ _ _ Hf) as F6.
+      apply call_unreg_write_facts in Hf as (F1 & F2 & F3 & F4 & F5).
       repeat split; try assumption; try congruence; try (intros _ Hne; congruence).
-    - apply call_reg_write_facts in Hf as (F1 & F2 & F3 & F4 & F5 & F6).
+    - pose proof (call_reg_write_connq _ _ _ Hf) as F7.
+      apply call_reg_write_facts in Hf as (F1 & F2 & F3 & F4 & F5 & F6).
       repeat split; try assumption; try congruence; try (intros Hsk _; apply F6; congruence). }
   destruct (if want_write st2 then call_reg_write T st2 else call_unreg_write T (sock st2) st2)
     as [st3 ev3] eqn:Hf.
-  destruct (Hfin _ _ eq_refl) as (F1 & F2 & F3 & F4 & F5).
-  inv H. rewrite F1, F2, M1, M2. split; [|split; [assumption|intros _; assumption]].
+  destruct (Hfin _ _ eq_refl) as (F1 & F2 & F3 & F4 & F5 & F6).
+  inv H. rewrite F1, F2, M1, M2.
+  assert (Hq3 : connq st' = true) by congruence. rewrite Hq3.
+  split; [|split; [assumption|split; [reflexivity|intros _; assumption]]].
   replace (tr ++ ev1 ++ ev2 ++ ev3) with ((tr ++ ev1) ++ (ev2 ++ ev3)) by (repeat rewrite <- app_assoc; reflexivity).
   apply Inv_nopub; [assumption|apply nopub_app; assumption|].
   rewrite wire_of_app, M4, F4. reflexivity.
 Qed.
 
-Lemma Inv_enqueue c q t tr h b k r :
-  Inv c q t tr h ->
-  Inv c (q ++ [fresh_pkt (Z.of_nat (length h)) b k r]) t tr (h ++ [fresh_pkt (Z.of_nat (length h)) b k r]).
+(* a packet other than CONNECT: appended at the tail *)
+Lemma Inv_enqueue c cq q t tr h b k r :
+  Inv c cq q t tr h ->
+  Inv c cq (q ++ [fresh_pkt (Z.of_nat (length h)) b k r]) t tr (h ++ [fresh_pkt (Z.of_nat (length h)) b k r]).
 Proof.
-  intros [done [H1 H2 H3 H4 H5 H6 H7 H8]]. exists done.
+  intros [done [H1 H2 H3 H4 H5 H6 H7 H8 H9]]. exists done.
   set (p := fresh_pkt (Z.of_nat (length h)) b k r).
   constructor; try assumption.
   - rewrite map_app. cbn [map]. unfold p at 2. rewrite reset_fresh_pkt. fold p. rewrite app_assoc, <- H1. reflexivity.
@@ -573,82 +642,121 @@ Proof.
   - apply ids_ok_snoc; [assumption|reflexivity].
   - destruct q as [|x q]; cbn [app head_off] in *; [apply TR_none|]; assumption.
   - apply pubs_ok_ext. assumption.
+  - intros Hc. destruct (H9 Hc) as (P1 & P2 & P3 & P4 & P5). repeat split; try assumption.
+    apply Forall_app. split; [assumption|]. constructor; [split; reflexivity|constructor].
+Qed.
+
+(* CONNECT, queued for the first time: put at the head; nothing has been offered to the transport yet *)
+Lemma Inv_enqueue_head c q t tr h b k r :
+  Inv c false q t tr h ->
+  Inv c true (fresh_pkt (Z.of_nat (length h)) b k r :: q) t tr (fresh_pkt (Z.of_nat (length h)) b k r :: h).
+Proof.
+  intros [done [H1 H2 H3 H4 H5 H6 H7 H8 H9]]. destruct (H9 eq_refl) as (P1 & P2 & P3 & P4 & P5). subst done.
+  exists []. set (p := fresh_pkt (Z.of_nat (length h)) b k r).
+  cbn [app] in H1.
+  constructor.
+  - cbn [app map]. unfold p at 2. rewrite reset_fresh_pkt. fold p. rewrite <- H1. reflexivity.
+  - rewrite (nopub_acc tr P2). reflexivity.
+  - split; [|assumption]. unfold head_ok, p; cbn. pose proof (zlen_nonneg b). lia.
+  - apply ids_ok_cons; [assumption|reflexivity].
+  - rewrite (nopub_setpub tr P2). reflexivity.
+  - rewrite (nopub_cbpub tr P2). unfold cbpub_of. destruct (c_onpub c); reflexivity.
+  - rewrite P3, (nopub_acc tr P2). apply P5.
+  - apply nopub_pubs_ok. assumption.
+  - discriminate.
 Qed.
 
 Definition is_conn_k (k : pkind) : bool := match k with KConn => true | _ => false end.
 
 Lemma enqueue_inv c in_cb st b k r s st' ev rc s' tr h :
   enqueue T tsend c in_cb st (fresh_pkt (Z.of_nat (length h)) b k r) s = (st', ev, rc, s') ->
-  is_conn_k k = false \/ outq st = [] ->
-  Inv c (outq st) (tst st) tr h -> asks st ->
-  Inv c (outq st') (tst st') (tr ++ ev) (h ++ [fresh_pkt (Z.of_nat (length h)) b k r])
-  /\ rc <> RcOutOfFuel /\ asks st'.
+  is_conn_k k = false \/ connq st = false ->
+  Inv c (connq st) (outq st) (tst st) tr h -> asks st ->
+  Inv c (connq st') (outq st') (tst st') (tr ++ ev)
+      (if is_conn_k k then fresh_pkt (Z.of_nat (length h)) b k r :: h else h ++ [fresh_pkt (Z.of_nat (length h)) b k r])
+  /\ rc <> RcOutOfFuel /\ asks st' /\ connq st' = (connq st || is_conn_k k).
 Proof.
   unfold enqueue. intros H Hk HI Ha.
   set (p := fresh_pkt (Z.of_nat (length h)) b k r) in *.
-  assert (Hq : (if is_conn p then p :: outq st else outq st ++ [p]) = outq st ++ [p]).
-  { change (is_conn p) with (is_conn_k k). destruct (is_conn_k k); [|reflexivity].
-    destruct Hk as [Hk|Hk]; [discriminate|]. rewrite Hk. reflexivity. }
-  rewrite Hq in H. clear Hq. subst p.
-  apply (Inv_enqueue _ _ _ _ _ b k r) in HI.
-  destruct (negb (c_ext c) && negb in_cb).
-  - pose proof (loop_write_inv _ _ _ _ _ _ _ _ _ H HI) as (L1 & L2 & L3).
-    split; [assumption|]. split; [assumption|].
-    cbn [set_outq sock] in L3. destruct (sock st) eqn:Hs; [apply L3; reflexivity|].
+  change (is_conn p) with (is_conn_k k) in H.
+  set (st1 := if is_conn_k k then mkst (p :: outq st) (sock st) (regw st) true (tst st)
+              else set_outq T st (outq st ++ [p])) in *.
+  assert (HI1 : Inv c (connq st1) (outq st1) (tst st1) tr (if is_conn_k k then p :: h else h ++ [p])).
+  { unfold st1. destruct (is_conn_k k) eqn:Ek; cbn [outq tst connq set_outq].
+    - destruct Hk as [Hk|Hk]; [discriminate|]. rewrite Hk in HI. apply Inv_enqueue_head. assumption.
+    - apply Inv_enqueue. assumption. }
+  assert (Hq1 : connq st1 = (connq st || is_conn_k k)).
+  { unfold st1. destruct (is_conn_k k); cbn [connq set_outq]; [rewrite orb_true_r|rewrite orb_false_r]; reflexivity. }
+  assert (Hs1 : sock st1 = sock st) by (unfold st1; destruct (is_conn_k k); reflexivity).
+  destruct (negb (c_ext c) && connq st1 && negb in_cb) eqn:Hdir.
+  - assert (Hc1 : connq st1 = true).
+    { apply andb_true_iff in Hdir as [Hd _]. apply andb_true_iff in Hd as [_ Hd]. exact Hd. }
+    pose proof (loop_write_inv _ _ _ _ _ _ _ _ _ H HI1 (or_introl Hc1)) as (L1 & L2 & L3 & L4).
+    split; [assumption|]. split; [assumption|]. split; [|congruence].
+    rewrite Hs1 in L4. destruct (sock st) eqn:Hs; [apply L4; reflexivity|].
     (* socket closed: loop_write returned at once *)
-    unfold loop_write in H. cbn [set_outq sock] in H. rewrite Hs in H. cbn [negb] in H. inv H.
-    intros Hsk. cbn [set_outq sock] in Hsk. congruence.
-  - destruct (call_reg_write T _) as [st2 ev2] eqn:Hc. inv H.
-    apply call_reg_write_facts in Hc as (C1 & C2 & C3 & C4 & C5 & C6). cbn [set_outq outq tst sock] in *.
-    rewrite C1, C2. split; [apply Inv_nopub; assumption|]. split; [discriminate|].
-    intros Hsk _. apply C6. congruence.
+    unfold loop_write in H. rewrite Hs1 in H. cbn [negb] in H. inv H.
+    intros Hsk. congruence.
+  - destruct (call_reg_write T st1) as [st2 ev2] eqn:Hc. inv H.
+    pose proof (call_reg_write_connq _ _ _ Hc) as C7.
+    apply call_reg_write_facts in Hc as (C1 & C2 & C3 & C4 & C5 & C6).
+    rewrite C1, C2, C7. split; [apply Inv_nopub; assumption|]. split; [discriminate|].
+    split; [|assumption]. intros Hsk _. apply C6. congruence.
 Qed.
 
 Record RInv (c : cfg) (r : rstate T) : Prop := mkRInv {
-  ri_inv : Inv c (outq (r_st r)) (tst (r_st r)) (r_trace r) (r_hist r);
+  ri_inv : Inv c (connq (r_st r)) (outq (r_st r)) (tst (r_st r)) (r_trace r) (r_hist r);
   ri_asks : asks (r_st r);
   ri_fuel : ~ In RcOutOfFuel (r_rcs r)
 }.
 
-Lemma step_inv c r o : not_conn_op o = true \/ outq (r_st r) = [] -> RInv c r -> RInv c (step T tsend c r o).
+Lemma step_inv c r o : not_conn_op o = true \/ connq (r_st r) = false ->
+  RInv c r -> RInv c (step T tsend c r o) /\ connq (r_st (step T tsend c r o)) = (connq (r_st r) || negb (not_conn_op o)).
 Proof.
   intros Hok [H1 H2 H3]. destruct o as [in_cb b k cbr s|s]; cbn [step].
-  - destruct (enqueue T tsend c in_cb (r_st r) _ s) as [[[st ev] rc] s'] eqn:He.
-    apply (enqueue_inv _ _ _ _ _ _ _ _ _ _ _ (r_trace r)) in He as (E1 & E2 & E3); try assumption.
-    + constructor; cbn; try assumption.
-      intros Hin. apply in_app_or in Hin as [Hin|[Hin|[]]]; [contradiction|congruence].
+  - change (is_conn (fresh_pkt (Z.of_nat (length (r_hist r))) b k cbr)) with (is_conn_k k).
+    destruct (enqueue T tsend c in_cb (r_st r) _ s) as [[[st ev] rc] s'] eqn:He.
+    apply (enqueue_inv _ _ _ _ _ _ _ _ _ _ _ (r_trace r)) in He as (E1 & E2 & E3 & E4); try assumption.
+    + split.
+      * constructor; cbn; try assumption.
+        intros Hin. apply in_app_or in Hin as [Hin|[Hin|[]]]; [contradiction|congruence].
+      * cbn. rewrite E4. destruct k; reflexivity.
     + destruct Hok as [Hok|Hok]; [left|right; assumption]. destruct k; cbn in Hok |- *; congruence.
   - destruct (loop_write T tsend c (r_st r) s) as [[[st ev] rc] s'] eqn:He.
-    pose proof (loop_write_inv _ _ _ _ _ _ _ _ _ He H1) as (E1 & E2 & E3).
-    constructor; cbn; try assumption.
-    + destruct (sock (r_st r)) eqn:Hs; [apply E3; reflexivity|].
-      unfold loop_write in He. rewrite Hs in He. cbn [negb] in He. inv He. assumption.
-    + intros Hin. apply in_app_or in Hin as [Hin|[Hin|[]]]; [contradiction|congruence].
+    pose proof (loop_write_inv _ _ _ _ _ _ _ _ _ He H1 (or_intror H2)) as (E1 & E2 & E3 & E4).
+    split.
+    + constructor; cbn; try assumption.
+      * destruct (sock (r_st r)) eqn:Hs; [apply E4; reflexivity|].
+        unfold loop_write in He. rewrite Hs in He. cbn [negb] in He. inv He. assumption.
+      * intros Hin. apply in_app_or in Hin as [Hin|[Hin|[]]]; [contradiction|congruence].
+    + cbn. rewrite E3, orb_false_r. reflexivity.
 Qed.
 
-Lemma run_from_inv c ops : forallb not_conn_op ops = true ->
-  forall r, RInv c r -> RInv c (fold_left (step T tsend c) ops r).
+Lemma run_from_inv c ops : forall r, conn_ok (connq (r_st r)) ops = true ->
+  RInv c r -> RInv c (fold_left (step T tsend c) ops r).
 Proof.
-  induction ops as [|o ops IH]; intros Hok r H; [assumption|]. cbn [fold_left].
-  cbn [forallb] in Hok. apply andb_true_iff in Hok as [Ho Hops].
-  apply IH; [assumption|]. apply step_inv; [left|]; assumption.
+  induction ops as [|o ops IH]; intros r Hok H; [assumption|]. cbn [fold_left]. cbn [conn_ok] in Hok.
+  destruct (not_conn_op o) eqn:Ho.
+  - destruct (step_inv c r o (or_introl Ho) H) as [S1 S2]. apply IH; [|assumption].
+    rewrite S2, Ho, orb_false_r. assumption.
+  - apply andb_true_iff in Hok as [Hseen Hops]. apply negb_true_iff in Hseen.
+    destruct (step_inv c r o (or_intror Hseen) H) as [S1 S2]. apply IH; [|assumption].
+    rewrite S2, Ho, orb_true_r. assumption.
 Qed.
 
 Lemma init_inv c t0 : TR t0 [] [] None -> RInv c (init T t0).
 Proof.
   intros H0. constructor; cbn.
   - exists []. constructor; cbn; try reflexivity; try exact I; try assumption.
-    unfold cbpub_of. destruct (c_onpub c); reflexivity.
+    + split; constructor.
+    + unfold cbpub_of. destruct (c_onpub c); reflexivity.
+    + intros _. repeat split; try constructor. apply TR_none. assumption.
   - unfold asks; cbn. intros _ Hne. exfalso; apply Hne; reflexivity.
   - intros [].
 Qed.
 
-Theorem run_inv c t0 ops : conn_first ops = true -> TR t0 [] [] None -> RInv c (run T tsend c t0 ops).
-Proof.
-  intros Hc H. unfold run. destruct ops as [|o ops]; [apply init_inv, H|].
-  cbn [fold_left conn_first] in *. apply run_from_inv; [assumption|].
-  apply step_inv; [right; reflexivity|apply init_inv, H].
-Qed.
+Theorem run_inv c t0 ops : conn_once ops = true -> TR t0 [] [] None -> RInv c (run T tsend c t0 ops).
+Proof. intros Hc H. unfold run. apply run_from_inv; [exact Hc|apply init_inv, H]. Qed.
 
 (* ------------------------------------------------------------------ consequences, still generic *)
 Lemma q_ok_split q : q_ok q -> sent_part q ++ unsent_q q = concat (map p_bytes q).
@@ -662,16 +770,10 @@ Qed.
 Lemma map_bytes_reset q : map p_bytes (map reset q) = map p_bytes q.
 Proof. rewrite map_map. apply map_ext. reflexivity. Qed.
 
-Lemma IB_stream c q t tr h done : IB c q t tr h done -> acc_of tr ++ unsent_q q = concat (map p_bytes h).
+Lemma IB_stream c cq q t tr h done : IB c cq q t tr h done -> acc_of tr ++ unsent_q q = concat (map p_bytes h).
 Proof.
-  intros [H1 H2 H3 _ _ _ _ _]. rewrite H2, H1, map_app, concat_app, map_bytes_reset, <- app_assoc.
+  intros [H1 H2 H3 _ _ _ _ _ _]. rewrite H2, H1, map_app, concat_app, map_bytes_reset, <- app_assoc.
   f_equal. apply q_ok_split. assumption.
-Qed.
-
-Lemma ids_ok_NoDup h : ids_ok h -> NoDup (map p_id h).
-Proof.
-  unfold ids_ok. intros ->. apply FinFun.Injective_map_NoDup; [|apply seq_NoDup].
-  intros a b. apply Nat2Z.inj.
 Qed.
 
 Lemma NoDup_map_filter {A B} (f : A -> B) (g : A -> bool) l : NoDup (map f l) -> NoDup (map f (filter g l)).
@@ -690,10 +792,10 @@ Proof.
   intros Hin. apply Hx. apply in_or_app. left. assumption.
 Qed.
 
-Lemma IB_once c q t tr h done : IB c q t tr h done ->
+Lemma IB_once c cq q t tr h done : IB c cq q t tr h done ->
   NoDup (setpub_ids tr) /\ NoDup (cbpub_ids tr).
 Proof.
-  intros [H1 _ _ H4 H5 H6 _ _]. apply ids_ok_NoDup in H4. rewrite H1, map_app in H4.
+  intros [H1 _ _ [H4 _] H5 H6 _ _ _]. rewrite H1, map_app in H4.
   apply NoDup_app_l in H4. rewrite H5, H6. split.
   - apply NoDup_map_filter. assumption.
   - unfold cbpub_of. destruct (c_onpub c); [apply NoDup_map_filter; assumption|constructor].
@@ -732,17 +834,22 @@ Qed.
 
 Definition raw_RInv := RInv unit raw_TR.
 
-Lemma raw_run_inv c ops : conn_first ops = true -> raw_RInv c (raw_run c ops).
+Lemma raw_run_inv c ops : conn_once ops = true -> raw_RInv c (raw_run c ops).
 Proof. intros Hc. apply (run_inv unit raw_send raw_TR raw_TR_none raw_send_spec); [assumption|reflexivity]. Qed.
 
-(* the history is determined by the operations: the i-th enqueued packet gets id i *)
-Fixpoint hist_from (n : nat) (ops : list op) : list opkt :=
+(* ------------------------------------------------------------------ the history as a function of the operations:
+   the packets of the connection in QUEUE order - CONNECT at the front, everything else at the back in the order
+   of the calls; the n-th packet queued gets id n *)
+Fixpoint hist_fold (h : list opkt) (ops : list op) : list opkt :=
   match ops with
-  | [] => []
-  | OEnq _ b k r _ :: t => fresh_pkt (Z.of_nat n) b k r :: hist_from (S n) t
-  | OWrite _ :: t => hist_from n t
+  | [] => h
+  | OEnq _ b k r _ :: t =>
+    let p := fresh_pkt (Z.of_nat (length h)) b k r in
+    hist_fold (if is_conn_k k then p :: h else h ++ [p]) t
+  | OWrite _ :: t => hist_fold h t
   end.
-Definition hist_of (ops : list op) : list opkt := hist_from 0 ops.
+Definition hist_of (ops : list op) : list opkt := hist_fold [] ops.
+Definition queued_bytes (ops : list op) : list (list Z) := map p_bytes (hist_of ops).
 
 Fixpoint enq_bytes (ops : list op) : list (list Z) :=
   match ops with
@@ -751,16 +858,42 @@ Fixpoint enq_bytes (ops : list op) : list (list Z) :=
   | OWrite _ :: t => enq_bytes t
   end.
 
-Lemma hist_from_bytes ops : forall n, map p_bytes (hist_from n ops) = enq_bytes ops.
-Proof. induction ops as [|[? b ? ? ?|?] ops IH]; intros n; cbn [hist_from enq_bytes map]; [reflexivity| |apply IH]. rewrite IH. reflexivity. Qed.
+Lemma hist_fold_plain ops : forallb not_conn_op ops = true ->
+  forall h, map p_bytes (hist_fold h ops) = map p_bytes h ++ enq_bytes ops.
+Proof.
+  induction ops as [|[? b k ? ?|?] ops IH]; intros Hok h; cbn [hist_fold enq_bytes forallb] in *.
+  - rewrite app_nil_r. reflexivity.
+  - apply andb_true_iff in Hok as [Hk Hops]. destruct k; try discriminate; cbn [is_conn_k];
+      rewrite IH by assumption; rewrite map_app, <- app_assoc; reflexivity.
+  - apply IH. assumption.
+Qed.
+
+(* no CONNECT among the operations: queue order = order of the calls *)
+Lemma queued_bytes_plain ops : forallb not_conn_op ops = true -> queued_bytes ops = enq_bytes ops.
+Proof. intros H. unfold queued_bytes, hist_of. rewrite hist_fold_plain by assumption. reflexivity. Qed.
+
+(* one CONNECT, after the packets [early] (queued from on_socket_open or by another thread): it goes first *)
+Lemma queued_bytes_connect early in_cb b r s rest :
+  forallb not_conn_op early = true -> forallb not_conn_op rest = true ->
+  queued_bytes (early ++ OEnq in_cb b KConn r s :: rest) = b :: enq_bytes early ++ enq_bytes rest.
+Proof.
+  intros He Hr. unfold queued_bytes, hist_of.
+  assert (Hgen : forall h, hist_fold h (early ++ OEnq in_cb b KConn r s :: rest)
+                           = hist_fold (fresh_pkt (Z.of_nat (length (hist_fold h early))) b KConn r :: hist_fold h early) rest).
+  { induction early as [|[? b0 k ? ?|?] early IH]; intros h; cbn [app hist_fold forallb] in *.
+    - reflexivity.
+    - apply andb_true_iff in He as [_ He]. apply IH. assumption.
+    - apply IH. assumption. }
+  rewrite Hgen, hist_fold_plain by assumption. cbn [map p_bytes fresh_pkt].
+  rewrite hist_fold_plain by assumption. cbn [map app]. reflexivity.
+Qed.
 
 Lemma run_from_hist T tsend c ops : forall r : rstate T,
-  r_hist (fold_left (step T tsend c) ops r) = r_hist r ++ hist_from (length (r_hist r)) ops.
+  r_hist (fold_left (step T tsend c) ops r) = hist_fold (r_hist r) ops.
 Proof.
-  induction ops as [|o ops IH]; intros r; cbn [fold_left hist_from]; [now rewrite app_nil_r|].
+  induction ops as [|o ops IH]; intros r; cbn [fold_left hist_fold]; [reflexivity|].
   rewrite IH. destruct o as [in_cb b k cbr s|s]; cbn [step].
-  - destruct (enqueue T tsend c in_cb (r_st r) _ s) as [[[st ev] rc] s']. cbn [r_hist].
-    rewrite app_length, <- app_assoc. cbn [length app]. rewrite Nat.add_1_r. reflexivity.
+  - destruct (enqueue T tsend c in_cb (r_st r) _ s) as [[[st ev] rc] s']. cbn [r_hist]. reflexivity.
   - destruct (loop_write T tsend c (r_st r) s) as [[[st ev] rc] s']. reflexivity.
 Qed.
 
@@ -768,31 +901,29 @@ Lemma run_hist T tsend c t0 ops : r_hist (run T tsend c t0 ops) = hist_of ops.
 Proof. unfold run. rewrite run_from_hist. reflexivity. Qed.
 
 (* ------------------------------------------------------------------ C06 on the raw socket *)
-Lemma raw_stream c ops : conn_first ops = true ->
-  wire_of (r_trace (raw_run c ops)) ++ unsent (r_st (raw_run c ops)) = concat (enq_bytes ops).
+Lemma raw_stream c ops : conn_once ops = true ->
+  wire_of (r_trace (raw_run c ops)) ++ unsent (r_st (raw_run c ops)) = concat (queued_bytes ops).
 Proof.
   intros Hcf. destruct (raw_run_inv c ops Hcf) as [[done HI] _ _].
-  pose proof (IB_stream _ _ _ _ _ _ _ _ HI) as Hs. pose proof (ib_tr _ _ _ _ _ _ _ _ HI) as Ht.
-  unfold raw_TR in Ht. unfold unsent. rewrite Ht, Hs. unfold raw_run. rewrite run_hist.
-  unfold hist_of. rewrite hist_from_bytes. reflexivity.
+  pose proof (IB_stream _ _ _ _ _ _ _ _ _ HI) as Hs. pose proof (ib_tr _ _ _ _ _ _ _ _ _ HI) as Ht.
+  unfold raw_TR in Ht. unfold unsent. rewrite Ht, Hs. unfold raw_run. rewrite run_hist. reflexivity.
 Qed.
 
-Lemma raw_qos0_published c ops tr1 e tr2 i : conn_first ops = true ->
+Lemma raw_qos0_published c ops tr1 e tr2 i : conn_once ops = true ->
   r_trace (raw_run c ops) = tr1 ++ e :: tr2 -> e = CbPublish i \/ e = SetPublished i ->
-  0 <= i
-  /\ (exists p, nth_error (hist_of ops) (Z.to_nat i) = Some p /\ p_kind p = KPub0 /\ p_id p = i)
-  /\ wire_of tr1 = concat (firstn (S (Z.to_nat i)) (enq_bytes ops)).
+  exists pre p post,
+    hist_of ops = pre ++ p :: post /\ p_kind p = KPub0 /\ p_id p = i
+    /\ wire_of tr1 = concat (map p_bytes (pre ++ [p])).
 Proof.
   intros Hcf Htr He. destruct (raw_run_inv c ops Hcf) as [[done HI] _ _].
-  pose proof (ib_pubs _ _ _ _ _ _ _ _ HI) as Hp. rewrite Htr in Hp.
+  pose proof (ib_pubs _ _ _ _ _ _ _ _ _ HI) as Hp. rewrite Htr in Hp.
   apply (pubs_ok_split unit raw_TR _ _ _ _ i) in Hp; [|assumption].
-  destruct Hp as (H0 & Hex & Hl & (t & Ht)). unfold raw_TR in Ht.
-  unfold raw_run in Hex, Hl. rewrite run_hist in Hex, Hl.
-  split; [assumption|]. split; [assumption|]. rewrite Ht, Hl.
-  unfold hist_of. rewrite <- firstn_map, hist_from_bytes. reflexivity.
+  destruct Hp as (pre & p & post & Hh & Hk & Hi & Hl & (t & Ht)). unfold raw_TR in Ht.
+  unfold raw_run in Hh. rewrite run_hist in Hh.
+  exists pre, p, post. repeat split; try assumption. rewrite Ht. exact Hl.
 Qed.
 
-Lemma raw_qos0_once c ops : conn_first ops = true ->
+Lemma raw_qos0_once c ops : conn_once ops = true ->
   let r := raw_run c ops in
   NoDup (setpub_ids (r_trace r)) /\ NoDup (cbpub_ids (r_trace r))
   /\ exists done,
@@ -802,15 +933,15 @@ Lemma raw_qos0_once c ops : conn_first ops = true ->
        /\ cbpub_ids (r_trace r) = cbpub_of c done.
 Proof.
   intros Hcf. cbn zeta. destruct (raw_run_inv c ops Hcf) as [[done HI] _ _].
-  destruct (IB_once _ _ _ _ _ _ _ _ HI) as [N1 N2]. split; [assumption|]. split; [assumption|].
-  exists done. pose proof HI as [H1 H2 _ _ H5 H6 H7 _]. unfold raw_TR in H7.
+  destruct (IB_once _ _ _ _ _ _ _ _ _ HI) as [N1 N2]. split; [assumption|]. split; [assumption|].
+  exists done. pose proof HI as [H1 H2 _ _ H5 H6 H7 _ _]. unfold raw_TR in H7.
   unfold raw_run in H1. rewrite run_hist in H1. rewrite H7. repeat split; assumption.
 Qed.
 
 Lemma unsent_want_write {T} (st : wstate T) : unsent st <> [] -> want_write st = true.
 Proof. unfold unsent, want_write. destruct (outq st); [intros H; exfalso; apply H; reflexivity|reflexivity]. Qed.
 
-Lemma raw_want_write c ops : conn_first ops = true ->
+Lemma raw_want_write c ops : conn_once ops = true ->
   let st := r_st (raw_run c ops) in
   unsent st <> [] -> want_write st = true /\ (sock st = true -> regw st = true).
 Proof.
@@ -819,26 +950,28 @@ Proof.
   intros Hq. apply H. unfold unsent. rewrite Hq. reflexivity.
 Qed.
 
-Lemma raw_terminates c ops : conn_first ops = true -> ~ In RcOutOfFuel (r_rcs (raw_run c ops)).
+Lemma raw_terminates c ops : conn_once ops = true -> ~ In RcOutOfFuel (r_rcs (raw_run c ops)).
 Proof. intros Hcf. apply (raw_run_inv c ops Hcf). Qed.
 
-(* ------------------------------------------------------------------ without [conn_first] the stream property fails
-   (finding F-C06b): a QoS 0 PUBLISH [48;4;0;1;116;120] is queued and written first (publish() from
-   on_socket_open in direct-write mode: 3 bytes accepted, then send() returns 0), then reconnect() queues CONNECT,
-   which _packet_queue puts at the HEAD of the queue, in front of the packet whose first 3 bytes are already on
-   the wire.  The accepted bytes are neither PUBLISH ++ CONNECT nor CONNECT ++ PUBLISH. *)
-Definition refute_ops : list op :=
-  [ OEnq false [48; 4; 0; 1; 116; 120] KPub0 false [Accept 3; Accept 0];
-    OEnq false [16; 2; 0; 0] KConn false [] ].
-
-Lemma raw_stream_refuted :
-  exists c ops a b,
-    enq_bytes ops = [a; b]
-    /\ unsent (r_st (raw_run c ops)) = []
-    /\ wire_of (r_trace (raw_run c ops)) <> a ++ b
-    /\ wire_of (r_trace (raw_run c ops)) <> b ++ a
-    /\ In (SetPublished 0) (r_trace (raw_run c ops)).
+(* nothing is offered to the transport before CONNECT is queued *)
+Lemma raw_nothing_before_connect c ops : forallb not_conn_op ops = true ->
+  wire_of (r_trace (raw_run c ops)) = [].
 Proof.
-  exists (mkcfg false true false), refute_ops, [48; 4; 0; 1; 116; 120], [16; 2; 0; 0].
-  vm_compute. repeat split; try discriminate. repeat first [left; reflexivity | right].
+  intros Hn. assert (Hc : conn_once ops = true).
+  { unfold conn_once. generalize false. induction ops as [|o ops IH]; intros seen; [reflexivity|].
+    cbn [forallb conn_ok] in *. apply andb_true_iff in Hn as [Ho Hops]. rewrite Ho. apply IH. assumption. }
+  assert (Hq : forall r : rstate unit, connq (r_st r) = false ->
+               connq (r_st (fold_left (step unit raw_send c) ops r)) = false).
+  { clear Hc. induction ops as [|o ops IH]; intros r Hr; [assumption|]. cbn [fold_left forallb] in *.
+    apply andb_true_iff in Hn as [Ho Hops]. apply IH; [assumption|].
+    destruct o as [in_cb b k cbr s|s]; cbn [step].
+    - unfold enqueue. destruct k; try discriminate; cbn [is_conn fresh_pkt p_kind set_outq connq];
+        rewrite Hr, andb_false_r; cbn [andb];
+        destruct (call_reg_write unit _) as [st2 ev2] eqn:Hcr;
+        apply (call_reg_write_connq unit) in Hcr; cbn [r_st]; rewrite Hcr; cbn; assumption.
+    - unfold loop_write. destruct (sock (r_st r)); cbn [negb]; [rewrite Hr; cbn [negb]|]; cbn [r_st]; assumption. }
+  destruct (raw_run_inv c ops Hc) as [[done HI] _ _].
+  pose proof (ib_pre _ _ _ _ _ _ _ _ _ HI) as Hp.
+  unfold raw_run, run in Hp |- *. rewrite (Hq (init unit tt) eq_refl) in Hp.
+  destruct (Hp eq_refl) as (_ & _ & Hw & _). exact Hw.
 Qed.
